@@ -397,3 +397,35 @@ func H_C02_flush() {
 	vSameResults(before, after, "flush-invariant")
 	vCover("flush")
 }
+
+func init() { vHarnesses["H_C02_many"] = H_C02_many }
+
+// more live vectors than the builder's default k (10) for the exhaustive trained kinds
+func H_C02_many() {
+	kind := []int{vKIVF, vKPQ, vKIVFPQ}[vChoose("kind", 3)]
+	metric := []DistanceKind{L2Squared, Cosine}[vChoose("metric", 2)]
+	vPQM, vPQNbits, vPQConcreteCB = 2, 1, true
+	u := vMakeIndexC(kind, metric, 2, 2, false)
+	for i := 0; i < 12; i++ {
+		vAddBoth(u.idx, u.m, uint32(40-3*i), []float32{float32(i%5) + 0.5, float32(i/3) - 1.25})
+	}
+	vRemoveBoth(u.idx, u.m, 40-3*4)
+	if vChoose("flush", 2) == 1 {
+		vFlushBoth(u.idx, u.m)
+	}
+	q := []float32{1.75, 0.5}
+	k := vInt("k")
+	s := u.idx.NewSearch().WithQuery(q).WithNProbes(0)
+	if vChoose("call_with_k", 2) == 1 {
+		s = s.WithK(k)
+	} else {
+		k = 10
+	}
+	res, serr := s.Execute()
+	vAssert(serr == nil, "search-ok")
+	pq, _ := u.m.dist.Preprocess(vCopy(q))
+	vCheckExact(res, u.m.eligible(pq, 0, nil), k)
+	if len(res) > 10 {
+		vCover("more-than-default-k")
+	}
+}
